@@ -227,6 +227,22 @@ def t07_comp(run, fx):
         x1, y1 = sym.strip(x), sym.strip(y)
         if y1[0] == "c" and y1[1] == 0 and op in ("Ge", "Lt") and any(z[0] == "call" and (z[1] or "").endswith("read_i16be") for z in sym.walk(x1)):
             found = True
+    if not found:
+        # the same dispatch written as `match u16::try_from(number_of_contours)`: the conversion succeeds exactly for counts >= 0. The simple
+        # glyph is read only on its success side and the composite glyph is not reachable from there.
+        import guards
+        simple = [bi for bi, t in g.calls() if "SimpleGlyph" in " ".join(t["callee"].get("args") or []) + (t["callee"].get("rpath") or "")]
+        comp = [bi for bi, t in g.calls() if "CompositeGlyph" in " ".join(t["callee"].get("args") or []) + (t["callee"].get("rpath") or "")]
+        for bi, t in g.calls():
+            rp = t["callee"].get("rpath") or t["callee"].get("path") or ""
+            if re.search(r"TryFrom<i16> for u16>::try_from$", rp) and not t["dest"]["p"] and \
+                    any(z[0] == "call" and (z[1] or "").endswith("read_i16be") for z in sym.walk(prov.op(t["args"][0]))):
+                sbs = guards.success_blocks(g, t["dest"]["l"])
+                after = set()
+                for sb in sbs:
+                    after |= g.reach_from(sb)
+                if simple and comp and sbs and all(any(g.dominates(sb, x) for sb in sbs) for x in simple) and not any(x in after for x in comp):
+                    found = True
     if found:
         run.ok(rule, "Glyph::read dispatches on numberOfContours >= 0 / < 0")
     else:
